@@ -240,8 +240,8 @@ func (sc *SortCtx) sliceSort(elem string) string {
 	}
 	sc.sliceElem[name] = elem
 	if !sc.seenSort[name] {
-		sc.declSort(name, fmt.Sprintf("(declare-datatypes ((%s 0)) (((mk_%s (arr_%s (Array Int %s)) (off_%s Int) (len_%s Int) (cap_%s Int)))))",
-			name, name, name, elem, name, name, name))
+		sc.declSort(name, fmt.Sprintf("(declare-datatypes ((%s 0)) (((mk_%s (arr_%s (Array Int %s)) (off_%s Int) (len_%s Int) (cap_%s Int) (bid_%s Int)))))",
+			name, name, name, elem, name, name, name, name))
 	}
 	return name
 }
@@ -372,7 +372,7 @@ func (sc *SortCtx) zeroOfSort(s string, t types.Type) string {
 		n := "nilslice_" + s
 		if !sc.seenFun[n] {
 			sc.declFun(n, fmt.Sprintf("(declare-const %s %s)", n, s))
-			sc.axiom(n, fmt.Sprintf("(assert (and (= (len_%s %s) 0) (= (cap_%s %s) 0) (= (off_%s %s) 0)))", s, n, s, n, s, n))
+			sc.axiom(n, fmt.Sprintf("(assert (and (= (len_%s %s) 0) (= (cap_%s %s) 0) (= (off_%s %s) 0) (= (bid_%s %s) 0)))", s, n, s, n, s, n, s, n))
 		}
 		return n
 	case strings.HasPrefix(s, "S_"):
